@@ -34,8 +34,7 @@ TRUSTED = [
 PARTIAL = (
     "Decided relative to models of redis-py and of the server (tracking included), neither validated against the real thing. Quiescent points "
     "only (delivery completed between commands): interleavings of a command with in-flight announcements are not explored. Not exhibited: "
-    "late expiry announcements of a real server, get_many with repeated keys, expire(k, 0) (the code itself disagrees there: "
-    "proposed_fixes/C20_D35.diff), get on a key locked with a raw token, get_size, more than one SCAN page, the local copy's capacity, "
+    "late expiry announcements of a real server, get_many with repeated keys, get on a key locked with a raw token, get_size, more than one SCAN page, the local copy's capacity, "
     "server down (C19), more than 3 clients. get_expire's answer is compared with the model only (the code lets it differ from the server's)."
 )
 KNOWN_SIGS = {
@@ -130,6 +129,8 @@ def stats_of(steps) -> set[str]:
             st.add("pattern_read_nonempty")
         if op[0] == "getexpire" and s["impl"].startswith("n=") and int(s["impl"][2:]) > 0:
             st.add("get_expire_positive")
+        if op[0] == "expire" and op[3] == 0:
+            st.add("expire_zero")
         if op[0] == "incr" and op[4] is not None:
             st.add("incr_with_ttl")
         if op[0] in ("get", "exists") and op[1] in dropped:
